@@ -205,13 +205,16 @@ def run_camera(args: tuple[str, int]) -> dict[str, Any]:
     execs = 0
     distinct: set[Any] = set()
     for order in interleavings(streams):
-        for mode in ("frames", "one_chunk", "with_other_state"):
+        for mode in ("frames", "one_chunk", "with_other_state", "two_subscriptions"):
             if mode != "frames" and execs % 7:  # the chunking variants on every 7th interleaving
                 pass
             s = Sess()
             try:
                 got: list[Any] = []
                 s.client.subscribe_states(got.append)
+                got2: list[Any] = []
+                if mode == "two_subscriptions":
+                    s.client.subscribe_states(got2.append)  # a second, independent subscription on the same client
                 msgs = []
                 for key, ii, c, data, done in order:
                     msgs.append(pb.CameraImageResponse(key=key, data=data, done=done))
@@ -231,6 +234,8 @@ def run_camera(args: tuple[str, int]) -> dict[str, Any]:
                         exp.append(("CameraState", m.key, buf.pop(m.key)))
                 act = [(type(g).__name__, g.key, getattr(g, "data", None)) for g in got]
                 distinct.add(tuple(act))
+                if mode == "two_subscriptions" and act == exp:
+                    act = [(type(g).__name__, g.key, getattr(g, "data", None)) for g in got2]  # the second subscriber sees the same images
                 if act != exp:
                     k = f"camera:cfg{ci}:{mode}"
                     if k not in seen:
